@@ -26,6 +26,8 @@ analysis procedures.
 .. moduleauthor:: Tom Dimiduk <tdimiduk@physics.harvard.edu>
 """
 
+import numbers
+
 import numpy as np
 import yaml
 from yaml.reader import ReaderError
@@ -73,7 +75,7 @@ copyreg.pickle(types.MethodType, _pickle_method, _unpickle_method)
 def ignore_aliases(data):
     try:
         # numpy arrays no longer want to be compared to None, so instead check for a none by looking for if it is an instance of NoneType
-        if isinstance(data, (str, bool, int, float)):
+        if isinstance(data, (str, bool, numbers.Number, np.generic)):
             return True
         if data is None or len(data) == 0:
             return True
